@@ -1,5 +1,6 @@
 import SemantivaModel.Driver.C01
 import SemantivaModel.Model.Inspect
+import SemantivaModel.Model.Origin
 namespace SemantivaModel.Driver.C02
 open Lean SemantivaModel.Driver SemantivaModel.Exec SemantivaModel.Inspect
 
@@ -9,6 +10,12 @@ def aerrJson : AErr → Json
   | .construct e => Json.arr #[Json.str "construct", C01.errJson e]
   | .typeMismatch => jStrs ["typeMismatch"]
   | .requiresDeleted k => jStrs ["requiresDeleted", k]
+
+def originJson : Origin → Json
+  | .config => jStrs ["config"]
+  | .node j => Json.arr #[Json.str "node", Json.num j]
+  | .initial => jStrs ["initial"]
+  | .default => jStrs ["default"]
 
 def handle (op : String) (j : Json) : Except String Json := do
   match op with
@@ -22,6 +29,9 @@ def handle (op : String) (j : Json) : Except String Json := do
                                    ("suppressed", jList (fun n => jStrs (suppressedOf n)) ns)])
     | .error (i, e) => pure (Json.mkObj [("accepted", Json.bool false), ("node", Json.num i), ("error", aerrJson e),
                                          ("required", jStrs [])])
+  | "c02.origins" =>
+    let ns ← (← arrField j "nodes").toList.mapM C01.nodeOfJson
+    pure (jList (fun row => jList (fun (kv : String × Origin) => Json.arr #[Json.str kv.1, originJson kv.2]) row) (origins ns))
   | _ => throw s!"c02: unknown op {op}"
 
 end SemantivaModel.Driver.C02
